@@ -179,11 +179,23 @@ impl ConnectionState {
                 };
                 *self = ConnectionState::ServerClosing(close);
 
-                for (_, mut slot) in inner.chan_slots.drain() {
-                    send(&slot.tx, Err(make_err()))?;
-                    for (_, tx) in slot.consumers.drain() {
-                        send(&tx, ConsumerMessage::ServerClosedConnection(make_err()))?;
+                for (_, slot) in inner.chan_slots.drain() {
+                    // Finish tearing the slot down before releasing a blocked caller: once it
+                    // has the error it may issue further calls or drop its consumers.
+                    let ChannelSlot {
+                        rx,
+                        tx,
+                        mut consumers,
+                        ..
+                    } = slot;
+                    drop(rx);
+                    for (_, consumer_tx) in consumers.drain() {
+                        send(
+                            &consumer_tx,
+                            ConsumerMessage::ServerClosedConnection(make_err()),
+                        )?;
                     }
+                    send(&tx, Err(make_err()))?;
                 }
             }
             // Server ack for client-initiated connection close.
@@ -197,11 +209,19 @@ impl ConnectionState {
                     .map_err(|_| Error::EventLoopClientDropped)?;
                 *self = ConnectionState::ClientClosed;
 
-                for (_, mut slot) in inner.chan_slots.drain() {
-                    send(&slot.tx, Err(Error::ClientClosedConnection))?;
-                    for (_, tx) in slot.consumers.drain() {
-                        send(&tx, ConsumerMessage::ClientClosedConnection)?;
+                for (_, slot) in inner.chan_slots.drain() {
+                    // Same order as for a server-initiated close: tear down, then release.
+                    let ChannelSlot {
+                        rx,
+                        tx,
+                        mut consumers,
+                        ..
+                    } = slot;
+                    drop(rx);
+                    for (_, consumer_tx) in consumers.drain() {
+                        send(&consumer_tx, ConsumerMessage::ClientClosedConnection)?;
                     }
+                    send(&tx, Err(Error::ClientClosedConnection))?;
                 }
             }
             // Server is blocking publishes due to an alarm on its side (e.g., low mem)
@@ -229,16 +249,30 @@ impl ConnectionState {
             // Server-initiated channel close.
             AMQPFrame::Method(n, AMQPClass::Channel(AmqpChannel::Close(close))) => {
                 warn!("server closing channel {}: {:?}", n, close);
-                let mut slot = slot_remove(inner, n)?;
+                let slot = slot_remove(inner, n)?;
                 let make_err = || Error::ServerClosedChannel {
                     channel_id: n,
                     code: close.reply_code,
                     message: close.reply_text.clone(),
                 };
-                send(&slot.tx, Err(make_err()))?;
-                for (_, tx) in slot.consumers.drain() {
-                    send(&tx, ConsumerMessage::ServerClosedChannel(make_err()))?;
+                // Finish tearing the slot down before releasing a blocked caller: disconnect
+                // the channel's request queue (so every later call on it fails), notify its
+                // consumers, and only then hand the error to the call in flight. Once the
+                // caller has the error it may issue further calls or drop its consumers.
+                let ChannelSlot {
+                    rx,
+                    tx,
+                    mut consumers,
+                    ..
+                } = slot;
+                drop(rx);
+                for (_, consumer_tx) in consumers.drain() {
+                    send(
+                        &consumer_tx,
+                        ConsumerMessage::ServerClosedChannel(make_err()),
+                    )?;
                 }
+                send(&tx, Err(make_err()))?;
                 inner.push_method(n, AmqpChannel::CloseOk(ChannelCloseOk {}));
             }
             // Server ack for client-initiated channel close.
